@@ -274,6 +274,82 @@ def scenarios(pid, cookie_of):
             yield base, [e4(R.udp(40000, 53, struct.pack('!HHHHHH', 0x1234, fl, 1, 0, 0, 0) + b'\x01a\0' + b'\0\1\0\1'), 17)], {'silence': True}
             yield base, [e4(R.udp(40000, 53, struct.pack('!HHHHHH', 0x1234, fl, 1, 1, 0, 0) + b'\x01a\0' + b'\0\1\0\1' + b'\x01a\0' + b'\0\1\0\1\0\0\xa8\xc0\0\4\x0a\0\0\1'), 17)], {'silence': True}
 
+# ----------------------------------------------------------------------------- application layer (C13, C15, C18)
+def _app_payload(fr):
+    g = decode(fr)
+    return None if g is None else g.get('payload')
+
+def app_scenarios(pid):
+    """(request payload, transport, checker) - checker(reply payload or None) -> list of disagreements; only clear-cut
+    cases of the statements"""
+    out = []
+    def silent(what):
+        return lambda r: ([] if r is None else ['%s was answered (%s..)' % (what, r[:24].hex())])
+    if pid == 'C18':
+        def banner(r):
+            return [] if r == b'SSH-2.0-1\r\n' else ['identification not answered with exactly SSH-2.0-1 CR LF: %s' % (r.hex() if r else None)]
+        for ident in (b'SSH-2.0-x\r\n', b'SSH-1.99-OpenSSH_8.9 some comment\r\n', b'SSH-2.0-\r\n', b'SSH-2.0-a_b.c-d\r\n', b'SSH-2.0-soft\rware\r\n', b'SSH-2.0-soft\r\r\n',
+                      b'SSH-2.0-soft comment\rwith cr\r\n'):
+            out.append((ident, 'tcp', banner))
+        for ident in (b'SSH-2.0-x', b'SSH-2.0-x\r', b'SSH-2.0-x y\r', b'SSH-2.0x\r\n', b'SSH-2.a-x\r\n', b'SSH-2.0-x\rz'):
+            out.append((ident, 'tcp', silent('an unterminated or malformed identification')))
+    if pid == 'C13':
+        def is401(r):
+            if r is None: return ['a complete request was not answered']
+            bad = []
+            if not r.startswith(b'HTTP/1.1 401'): bad.append('status line is not HTTP/1.1 401')
+            if b'WWW-Authenticate:' not in r: bad.append('no WWW-Authenticate header')
+            k = r.find(b'\n\n'); k2 = r.find(b'\r\n\r\n')
+            body = r[k + 2:] if k >= 0 and (k2 < 0 or k < k2) else (r[k2 + 4:] if k2 >= 0 else None)
+            import re as _re
+            mo = _re.search(rb'Content-Length: *(\d+)', r)
+            if body is None or not mo or int(mo.group(1)) != len(body): bad.append('Content-Length %s != %s body bytes' % (mo.group(1) if mo else None, None if body is None else len(body)))
+            return bad
+        for v in (b'GET', b'PUT', b'POST', b'HEAD', b'DELETE', b'CONNECT', b'OPTIONS', b'TRACE', b'PATCH'):
+            for eol in (b'\r\n', b'\n'):
+                out.append((v + b' /a\xff HTTP/1.1' + eol + b'Host: x' + eol + b'X-Y: z: w' + eol + eol, 'udp', is401))
+                out.append((v + b' / HTTP/1.0' + eol + eol, 'tcp', is401))
+        for bad_req in (b'BREW / HTTP/1.0\r\n\r\n', b'GETX / HTTP/1.0\r\n\r\n', b'GET / HTTP/1.0\r\n', b'GET / HTTP/1.0\r\nHost: x\r\n', b'GET / HTTX/1.0\r\n\r\n',
+                        b'GET / HTTP/1.0 \r\n\r\n', b'GET / HTTP/1.0\r\nNoColonHere\r\n\r\n', b'GET /\r\n\r\n', b'GET / HTTP/a.0\r\n\r\n'):
+            out.append((bad_req, 'udp', silent('an incomplete or malformed request')))
+            out.append((bad_req, 'tcp', silent('an incomplete or malformed request')))
+    if pid == 'C15':
+        def stun_ok(tid, src_ip4, sport):
+            def chk(r):
+                want_attr = struct.pack('!HHBBH', 1, 8, 0, 1, sport) + socket.inet_aton(src_ip4)
+                want = struct.pack('!HH', 0x0101, len(want_attr)) + tid + want_attr
+                return [] if r == want else ['binding success response differs: expected %s, got %s' % (want.hex(), r.hex() if r else None)]
+            return chk
+        for tid in (b'\x21\x12\xa4\x42' + b'\x01' * 12, b'\x00' * 16, b'\xff' * 16):
+            for sport in (40000, 65535, 1):
+                out.append((struct.pack('!HH', 1, 0) + tid, ('udp', sport), stun_ok(tid, PEER4, sport)))
+        for typ in (0x0011, 0x0101, 0x0111, 0x0002, 0x0003):
+            out.append((struct.pack('!HH', typ, 0) + b'\x21\x12\xa4\x42' + b'\x01' * 12, ('udp', 40000), silent('a STUN message that is not a binding request')))
+    return out
+
+def app_search(pid, repo, d, cookie_of):
+    n = 0
+    for payload, tr, chk in app_scenarios(pid):
+        n += 1
+        sport = 40000
+        if isinstance(tr, tuple): tr, sport = tr
+        d.reset()
+        if tr == 'udp':
+            fr = e4(R.udp(sport, 3478 if pid == 'C15' else 8080, payload), 17)
+        else:
+            ck = cookie_of(PEER4, ME4, 41000 + n, 2222)
+            fr = e4(R.tcp(41000 + n, 2222, 100, (ck + 1) & 0xffffffff, PSH | ACK, payload), 6)
+        r = d.frame(fr)
+        if r[0] == 'panic':
+            return {'frames_hex': [fr.hex()], 'cfg': {}, 'disagreements': ['panic: ' + str(r[1])[:200]], 'reply_hex': None, 'scenarios_tried': n}
+        rp = _app_payload(r[1]) if r[0] == 'reply' else None
+        if rp is not None and len(rp) == 0: rp = None     # a bare ACK carries no application answer
+        bad = chk(rp)
+        if bad:
+            return {'frames_hex': [fr.hex()], 'cfg': {}, 'disagreements': bad[:3], 'reply_hex': r[1].hex() if r[0] == 'reply' else None, 'scenarios_tried': n,
+                    'request': payload.decode('latin1'), 'found_by': 'bounded search on the hook binary against clear-cut cases of the statement (tools/witness.py)'}
+    return None
+
 def search(pid, repo, budget_s=25.0):
     """first disagreement between the statements' model and the hook binary for property pid, or None"""
     try:
@@ -288,6 +364,8 @@ def search(pid, repo, budget_s=25.0):
             k = (s, t, sp, dp)
             if k not in cache: cache[k] = d.cookie(s, t, sp, dp)
             return cache[k]
+        if pid in ('C13', 'C15', 'C18'):
+            return app_search(pid, repo, d, cookie_of)
         cur = None
         for sc in scenarios(pid, cookie_of):
             cfg, frames = sc[0], sc[1]; opt = sc[2] if len(sc) > 2 else {}
@@ -319,7 +397,7 @@ def search(pid, repo, budget_s=25.0):
 
 def selfcheck(repo):
     out = {}
-    for pid in ('C02', 'C03', 'C04', 'C05', 'C06', 'C07', 'C08', 'C09', 'C12'):
+    for pid in ('C02', 'C03', 'C04', 'C05', 'C06', 'C07', 'C08', 'C09', 'C12', 'C13', 'C15', 'C18'):
         out[pid] = search(pid, repo, budget_s=60.0)
     return out
 
